@@ -270,6 +270,8 @@ func (c07) Execute(sc *engine.Scenario) *engine.Result {
 			}
 			if wc > 0 {
 				m.RunCycles(1 + uint64(r.Intn(int(wc/uint64(warm)+1))))
+			} else {
+				m.RunCycles(1) // a guest performs one bus operation per machine cycle, in the warm-up too
 			}
 		}
 	})
